@@ -26,6 +26,26 @@ type GenWorld struct {
 	Pub     map[string][]FuncSig // public functions per file (mount-relative path)
 	Edges   map[string][]string  // import edges between local files
 	StdOf   map[string][]string  // std libraries imported per file
+	StdFiles []WFile             // extra files of the std directory (library modules that take part in the import graph)
+	AbsOK    bool                // import paths may be absolute: "{{MOUNT}}" stands for the directory the world is mounted at
+}
+
+// MountMark is replaced by the mount directory when a world is materialised.
+const MountMark = "{{MOUNT}}"
+
+// absSpelling spells the mount-relative file `to` as an absolute import path, in or out of normal form.
+func absSpelling(r *Rng, to string) string {
+	switch r.Intn(5) {
+	case 0:
+		return MountMark + "/./" + to
+	case 1:
+		return MountMark + "//" + to
+	case 2:
+		return MountMark + "/zz/../" + to
+	case 3:
+		return MountMark + "/" + path.Dir(to) + "/./" + path.Base(to)
+	}
+	return MountMark + "/" + to
 }
 
 // ClosureOf returns rel plus everything it transitively imports (sorted), and the std libraries used.
@@ -133,11 +153,12 @@ type WorldOpts struct {
 	Corpus     []string // harvested programs that may serve as main files
 	CorpusPct  int
 	SmallFeats bool
+	AbsImports bool // imports may be spelled as absolute paths (C13 only: the content then names its location)
 }
 
 // NewWorld generates files bottom-up so that importers know what they may call.
 func NewWorld(r *Rng, o WorldOpts) *GenWorld {
-	w := &GenWorld{}
+	w := &GenWorld{AbsOK: o.AbsImports}
 	k := r.Intn(o.MaxFiles + 1)
 	names := []string{"main.tsh"}
 	dirs := []string{"", "", "lib/", "pkg/util/", "a b/"}
@@ -156,6 +177,24 @@ func NewWorld(r *Rng, o WorldOpts) *GenWorld {
 	}
 	w.Main = names[0]
 	w.Pub, w.Edges, w.StdOf = map[string][]FuncSig{}, map[string][]string{}, map[string][]string{}
+	// files that are not sources but live next to them (helper scripts, data): programs may name them
+	helpers := []string{}
+	if r.Chance(45) {
+		for n := r.Range(1, 3); n > 0; n-- {
+			helpers = append(helpers, r.Pick([]string{"tools/greet.sh", "bin/run", "data/in.txt", "a b/x.sh", "run.sh", "lib/helper.sh", "out.txt"}))
+		}
+	}
+	worldPaths := func(from string) []string {
+		out := []string{}
+		for _, t := range append(append([]string{}, names...), helpers...) {
+			ip := relImport(from, t)
+			out = append(out, ip, "./"+ip)
+			if d := path.Dir(ip); d != "." {
+				out = append(out, d, d+"/")
+			}
+		}
+		return out
+	}
 	// edges: file i imports a subset of files j > i
 	edges := make([][]int, len(names))
 	shape := "single"
@@ -205,7 +244,9 @@ func NewWorld(r *Rng, o WorldOpts) *GenWorld {
 		for n, j := range edges[i] {
 			alias := fmt.Sprintf("m%d", j)
 			ip := relImport(names[i], names[j])
-			if r.Chance(12) {
+			if o.AbsImports && r.Chance(6) {
+				ip = absSpelling(r, names[j])
+			} else if r.Chance(12) {
 				// other spellings of the same import path
 				switch r.Intn(3) {
 				case 0:
@@ -245,6 +286,9 @@ func NewWorld(r *Rng, o WorldOpts) *GenWorld {
 			f.MaxBody = min(f.MaxBody, 2)
 		}
 		f.PublicFuncs = i > 0
+		if r.Chance(50) {
+			f.WorldPaths = worldPaths(names[i])
+		}
 		if i > 0 {
 			f.Funcs = true
 			f.MaxFuncs = max(f.MaxFuncs, 1)
@@ -256,6 +300,9 @@ func NewWorld(r *Rng, o WorldOpts) *GenWorld {
 			shape = "corpus"
 		} else {
 			src, pub[i] = GenProgram(r.Sub(), f, imps, fmt.Sprintf("_%d_", i))
+			if r.Chance(3) {
+				src = strings.ReplaceAll(src, "\n", "\r\n") // a source file with CR LF line ends
+			}
 		}
 		w.Files = append(w.Files, WFile{names[i], []byte(src)})
 		w.Pub[names[i]] = pub[i]
@@ -291,11 +338,17 @@ func NewWorld(r *Rng, o WorldOpts) *GenWorld {
 			w.UsesStd = append(w.UsesStd, s)
 		}
 	}
+	for _, h := range helpers {
+		if w.Get(h) == nil {
+			w.Files = append(w.Files, WFile{h, []byte("#!/bin/sh\necho helper\n")})
+			w.Decoys = append(w.Decoys, h)
+		}
+	}
 	for d := 0; d < o.Decoys; d++ {
 		name := fmt.Sprintf("%sdecoy%d.tsh", r.Pick(dirs[:3]), d)
 		if r.Chance(35) {
 			// confusable names: a stale copy next to a real file, a name close to a std library
-			name = r.Pick([]string{"h1.tsh.bak", "h1.tsh~", "H1.TSH", "main.tsh.orig", "string.tsh", "std/strings.tsh", "lib/strings", "os.tsh.txt", ".h1.tsh.swp",
+			name = r.Pick([]string{"h1.tsh.bak", "h1.tsh~", "H1.TSH", "main.tsh.orig", "string.tsh", "std/strings.tsh", "os.tsh.txt", ".h1.tsh.swp",
 				"strings.tsh", "os.tsh", "strings.tsh", "lib/strings.tsh", "h1", "main"})
 			if w.Get(name) != nil {
 				name = fmt.Sprintf("decoy%d.tsh", d)
@@ -308,17 +361,27 @@ func NewWorld(r *Rng, o WorldOpts) *GenWorld {
 	// shadowing candidates: next to a file that imports a std library, a local file whose
 	// name is that of the library (with and without extension). The unchanged resolution
 	// rule decides which one is meant; no environment change may flip that decision.
+	// A file named exactly like the library (no extension) IS what the rule finds first: it
+	// is a dependency of the importing file, not a decoy.
 	for i := range names {
 		for _, lib := range stdOf[i] {
 			if r.Chance(30) {
 				d := path.Dir(names[i])
-				n := lib + r.Pick([]string{".tsh", ".tsh", "", ".TSH"})
+				ext := r.Pick([]string{".tsh", ".tsh", "", ".TSH"})
+				n := lib + ext
 				if d != "." {
 					n = d + "/" + n
 				}
 				if w.Get(n) == nil {
 					w.Files = append(w.Files, WFile{n, []byte("func Contains(a string, b string) bool {\n\treturn true\n}\nfunc Shell() string {\n\treturn \"local\"\n}\n")})
-					w.Decoys = append(w.Decoys, n)
+					if ext == "" {
+						w.Edges[names[i]] = append(w.Edges[names[i]], n)
+						if seen[i] {
+							w.Closure = append(w.Closure, n)
+						}
+					} else {
+						w.Decoys = append(w.Decoys, n)
+					}
 				}
 			}
 		}
@@ -372,10 +435,25 @@ func makeHostile(r *Rng, w *GenWorld) {
 			break
 		}
 	}
-	switch r.Intn(10) {
+	// every edge of a cycle may be spelled in any way the resolution rules accept
+	spelled := ""
+	relImport := func(from, to string) string {
+		ip := relImport(from, to)
+		switch {
+		case w.AbsOK && r.Chance(25):
+			spelled = "+abs"
+			return absSpelling(r, to)
+		case r.Chance(20):
+			spelled = "+dots"
+			return r.Pick([]string{"./", "./././", "zz/../"}) + ip
+		}
+		return ip
+	}
+	defer func() { w.Shape += spelled }()
+	switch r.Intn(13) {
 	case 0: // self import
 		w.Shape = "hostile:self"
-		w.Set(main, []byte(fmt.Sprintf("import me %q\n", path.Base(main))+body(main)))
+		w.Set(main, []byte(fmt.Sprintf("import me %q\n", relImport(main, main))+body(main)))
 	case 1: // 2-cycle
 		w.Shape = "hostile:cycle2"
 		w.Set(other, []byte(fmt.Sprintf("import back %q\n", relImport(other, main))+body(other)))
@@ -386,6 +464,19 @@ func makeHostile(r *Rng, w *GenWorld) {
 		w.Set(third, []byte(fmt.Sprintf("import c %q\nfunc T() {\n}\n", relImport(third, main))))
 		w.Set(other, []byte(fmt.Sprintf("import (\n\tb %q\n)\n", relImport(other, third))+body(other)))
 		w.Set(main, []byte(fmt.Sprintf("import (\n\ta %q\n)\n", relImport(main, other))+body(main)))
+	case 10: // cycle among library modules: resolved through the std directory, by bare name
+		w.Shape = "hostile:std-cycle"
+		ext := r.Pick([]string{"", "", ".tsh"})
+		w.StdFiles = append(w.StdFiles, WFile{"cyca.tsh", []byte(fmt.Sprintf("import \"cycb%s\"\nfunc A() {\n}\n", ext))}, WFile{"cycb.tsh", []byte(fmt.Sprintf("import \"cyca%s\"\nfunc B() {\n}\n", ext))})
+		w.Set(main, []byte(fmt.Sprintf("import \"cyca%s\"\n", ext)+body(main)))
+	case 11: // a library module importing itself
+		w.Shape = "hostile:std-self"
+		w.StdFiles = append(w.StdFiles, WFile{"selfish.tsh", []byte(r.Pick([]string{"import \"selfish\"\n", "import s \"selfish.tsh\"\n", "import s \"./selfish.tsh\"\n"}) + "func S() {\n}\n")})
+		w.Set(main, []byte("import \"selfish\"\n"+body(main)))
+	case 12: // a library module importing the program that imports it
+		w.Shape = "hostile:std-back"
+		w.StdFiles = append(w.StdFiles, WFile{"backref.tsh", []byte(fmt.Sprintf("import m %q\nfunc B() {\n}\n", MountMark+"/"+main))})
+		w.Set(main, []byte("import \"backref\"\n"+body(main)))
 	case 3: // missing target
 		w.Shape = "hostile:missing"
 		w.Set(main, []byte("import gone \"nothere.tsh\"\n"+body(main)))
@@ -403,8 +494,8 @@ func makeHostile(r *Rng, w *GenWorld) {
 		w.Set(main, []byte("import d \"adir\"\n"+body(main)))
 	case 7: // cycle among imported files only, main imports one of them
 		w.Shape = "hostile:cycle-below"
-		w.Set("ca.tsh", []byte("import b \"cb.tsh\"\nfunc A() {\n}\n"))
-		w.Set("cb.tsh", []byte("import a \"ca.tsh\"\nfunc B() {\n}\n"))
+		w.Set("ca.tsh", []byte(fmt.Sprintf("import b %q\nfunc A() {\n}\n", relImport("ca.tsh", "cb.tsh"))))
+		w.Set("cb.tsh", []byte(fmt.Sprintf("import a %q\nfunc B() {\n}\n", relImport("cb.tsh", "ca.tsh"))))
 		w.Set(main, []byte(fmt.Sprintf("import (\n\tca %q\n)\n", relImport(main, "ca.tsh"))+body(main)))
 	case 8: // import header garbage
 		w.Shape = "hostile:header"
